@@ -392,7 +392,13 @@ fn gen_rounds(rng: &mut Rng, valid_only: bool) -> (usize, usize, Vec<RoundIn>) {
     let nrounds = *rng.pick(&[1usize, 2, 3, 5, 8, 20, 40]);
     let first = *rng.pick(&[1u8, 1, 1, 2, 5, 200, 250]);
     let v6 = rng.chance(1, 4);
-    let pool: Vec<IpAddr> = (0..6).map(|_| crate::simnet::rand_addr(rng, v6)).collect();
+    // (hosts of special address classes answer too: link-local routers, the unspecified / loopback / broadcast addresses)
+    let special: Vec<IpAddr> = if v6 {
+        vec!["fe80::1".parse().unwrap(), "fe80::2".parse().unwrap(), "::1".parse().unwrap(), "::".parse().unwrap(), "ff02::1".parse().unwrap()]
+    } else {
+        vec!["169.254.0.1".parse().unwrap(), "169.254.7.7".parse().unwrap(), "127.0.0.1".parse().unwrap(), "0.0.0.0".parse().unwrap(), "255.255.255.255".parse().unwrap()]
+    };
+    let pool: Vec<IpAddr> = (0..6).map(|_| if rng.chance(1, 5) { *rng.pick(&special) } else { crate::simnet::rand_addr(rng, v6) }).collect();
     let path_variants = 1 + rng.below(3) as usize;
     let base = vclock::BASE_NS;
     let mut rounds = vec![];
